@@ -21,4 +21,29 @@ theorem mapGet_of_mem (m : List (Str × Str)) (hd : (m.map (·.1)).Nodup) (kv : 
       simp [Go.mapGet, this, ih hd.2 h']
 
 
+/-- `m[k] = v` as seen by a lookup -/
+theorem lookup_mapSet {ν : Type} (m : List (Str × ν)) (k k' : Str) (v : ν) :
+    (Go.mapSet m k v).lookup k' = if k' = k then some v else m.lookup k' := by
+  induction m with
+  | nil =>
+    by_cases h : k' = k
+    · subst h; simp [Go.mapSet, List.lookup]
+    · have h' : (k' == k) = false := by simpa using h
+      simp [Go.mapSet, List.lookup, h, h']
+  | cons kv rest ih =>
+    obtain ⟨a, b⟩ := kv
+    by_cases ha : a = k
+    · subst ha
+      by_cases h : k' = a
+      · subst h; simp [Go.mapSet, List.lookup]
+      · have h' : (k' == a) = false := by simpa using h
+        simp [Go.mapSet, List.lookup, h, h']
+    · have ha' : (a == k) = false := by simpa using ha
+      by_cases h : k' = a
+      · subst h
+        have : ¬ k' = k := ha
+        simp [Go.mapSet, List.lookup, ha', this]
+      · have h' : (k' == a) = false := by simpa using h
+        simp [Go.mapSet, List.lookup, ha', h', ih]
+
 end Gengo.GoRtLemmas
